@@ -40,7 +40,7 @@ def gen_times(rng, n):
     out = []
     for _ in range(n):
         r = rng.below(10)
-        if r == 0:
+        if r <= 1:
             out.append((0, 0))                        # null record
         elif r < 6:
             out.append(rng.pick(pool))                # ties likely
@@ -54,7 +54,8 @@ def run_case(ctx, rng, k, kind='plain'):
     times = gen_times(rng, n)
     if all(t == (0, 0) for t in times):
         times[0] = (1700000001, 1)
-    data = b''.join(rec(i, s, u) for i, (s, u) in enumerate(times))
+    # a null record is either an all-zero slot (as wtmp files really contain) or a filled record whose time is (0, 0)
+    data = b''.join((bytes(384) if (s, u) == (0, 0) and rng.chance(2, 3) else rec(i, s, u)) for i, (s, u) in enumerate(times))
     path = os.path.join(ctx.work, 'c08_%d.wtmp%s' % (k, e2e.SUFFIX[kind]))
     e2e.pack(data, kind, path, inner_name='c08.wtmp')
     secs = sorted(set(s for s, _ in times if s))
